@@ -88,7 +88,7 @@ namespace c08
     return s;
   }
 
-  inline BlockDense make_dense(int n, int bs, unsigned pattern, int dvar, int v)
+  inline BlockDense make_dense(int n, int bs, unsigned pattern, int dvar, int dver, int over)
   {
     BlockDense A; A.init(n, bs);
     int bit = 0;
@@ -98,7 +98,7 @@ namespace c08
       if(bi != bj) { on = (pattern >> bit) & 1u; ++bit; }
       if(!on) continue;
       A.pat[size_t(bi) * n + bj] = 1;
-      for(int r = 0; r < bs; ++r) for(int c = 0; c < bs; ++c) A.at(bi * bs + r, bj * bs + c) = entry(bs, bi, bj, r, c, dvar, v);
+      for(int r = 0; r < bs; ++r) for(int c = 0; c < bs; ++c) A.at(bi * bs + r, bj * bs + c) = entry(bs, bi, bj, r, c, dvar, bi == bj ? dver : over);
     }
     return A;
   }
@@ -181,8 +181,10 @@ namespace c08
   {
     int n, bs, N;
     PCfg cfg;
-    BlockDense A[3];       // the three data versions of the system matrix
-    RefILU ilu[3];
+    // data versions: index v = 2*dver + over with the version dver of the DIAGONAL entries/blocks and over of the off-diagonal ones
+    static constexpr int NV = 4;
+    BlockDense A[NV];
+    RefILU ilu[NV];
     std::vector<char> fixed; // scalar dofs fixed by the unit filter
     bool usable = true;
     const char* why_not = "";
@@ -192,9 +194,9 @@ namespace c08
       n = n_; bs = bs_; N = n * bs; cfg = c;
       fixed.assign(N, 0);
       for(int b = 0; b < n; ++b) if(fixed_blocks[b]) for(int r = 0; r < bs; ++r) fixed[b * bs + r] = 1;
-      for(int v = 0; v < 3; ++v)
+      for(int v = 0; v < NV; ++v)
       {
-        A[v] = make_dense(n, bs, pattern, dvar, v);
+        A[v] = make_dense(n, bs, pattern, dvar, v / 2, v % 2);
         if(cfg.kind == K_ILU) { ilu[v].factorize(A[v], cfg.ip); if(!ilu[v].ok) { usable = false; why_not = "ILU reference pivot singular or tiny"; } }
         if(cfg.kind == K_JACOBI || cfg.kind == K_POLY) for(int i = 0; i < N; ++i) if(A[v].at(i, i) == 0.0L) { usable = false; why_not = "zero scalar diagonal entry"; }
       }
@@ -211,7 +213,7 @@ namespace c08
       case K_ILU: y = ilu[v].apply(d); break;
       case K_POLY: y = ref_poly(A[v], d, cfg.ip, cfg.omega, fixed); break;
       case K_SCALE: y = d; for(auto& x : y) x *= cfg.omega; break;
-      case K_DIAG: y = d; for(int i = 0; i < N; ++i) y[i] *= diagvec_entry(i, v); break;
+      case K_DIAG: y = d; for(int i = 0; i < N; ++i) y[i] *= diagvec_entry(i, v / 2); break;
       case K_MATRIX: y = matvec(A[v], d); break;
       }
       for(int i = 0; i < N; ++i) if(fixed[i]) y[i] = 0.0L;
@@ -275,7 +277,7 @@ namespace c08
       }
     }
     /// in-place update of the values the preconditioner is built on
-    void update(int v) { mver = v; set_values<bs>(mat, orc.A[v]); set_diagvec(v); }
+    void update(int v) { mver = v; set_values<bs>(mat, orc.A[v]); set_diagvec(v / 2); }
 
     /// applies the preconditioner on d with the output pre-filled by 'prefill'; returns the raw output
     std::vector<double> apply(const LVec& d, double prefill, Status& st, bool& input_unchanged)
@@ -364,8 +366,8 @@ namespace c08
   }
 
   // life-cycle operations
-  enum LOp { L_INIT_SYM = 0, L_INIT_NUM, L_APPLY, L_UPDATE, L_DONE_NUM, L_DONE_SYM, L_COUNT };
-  const char* const LNAME[] = {"init_symbolic", "init_numeric", "apply", "update_values", "done_numeric", "done_symbolic"};
+  enum LOp { L_INIT_SYM = 0, L_INIT_NUM, L_APPLY, L_UPDATE_DIAG, L_UPDATE_ALL, L_DONE_NUM, L_DONE_SYM, L_COUNT };
+  const char* const LNAME[] = {"init_symbolic", "init_numeric", "apply", "update_diagonal_values", "update_all_values", "done_numeric", "done_symbolic"};
 
   inline std::string hist_str(const std::vector<uint8_t>& h) { std::string s; for(auto o : h) { if(!s.empty()) s += ' '; s += LNAME[o]; } return s; }
 
@@ -503,12 +505,15 @@ namespace c08
     // ---------------------------------------------------------------- life-cycle histories (E3)
     if(!lifecycle) return;
     const LVec& probe = inputs.back();
-    LVec refs[3]; for(int v = 0; v < 3; ++v) refs[v] = orc.apply(v, probe);
+    LVec refs[Oracle::NV]; for(int v = 0; v < Oracle::NV; ++v) refs[v] = orc.apply(v, probe);
 
     struct Key { uint64_t a, b; bool operator==(const Key& o) const { return a == o.a && b == o.b; } };
     struct KeyHash { size_t operator()(const Key& k) const { return size_t(k.a ^ (k.b * 0x9e3779b97f4a7c15ull)); } };
 
-    struct Model { int phase = 0, mver = 0, nver = -1; };
+    // app_sym / app_num: was there an apply since the last init_symbolic / init_numeric (capped at 1)? These model-level bits are part of
+    // the state key: for a correct implementation apply leaves no trace in the object, so without them every history with an apply BEFORE
+    // a value update would be pruned as 'already visited' and a cache filled by the first apply could hide behind the canonical key.
+    struct Model { int phase = 0, mver = 0, nver = -1, app_sym = 0, app_num = 0; };
     auto legal = [](const Model& m, int op)
     {
       switch(op)
@@ -516,7 +521,7 @@ namespace c08
       case L_INIT_SYM: return m.phase == 0;
       case L_INIT_NUM: return m.phase >= 1;
       case L_APPLY: return m.phase == 2;
-      case L_UPDATE: return true;
+      case L_UPDATE_DIAG: case L_UPDATE_ALL: return true;
       case L_DONE_NUM: return m.phase == 2;
       case L_DONE_SYM: return m.phase == 1;
       }
@@ -534,15 +539,17 @@ namespace c08
         const bool last = (i + 1 == hist.size());
         switch(op)
         {
-        case L_INIT_SYM: box.prec->init_symbolic(); m.phase = 1; break;
-        case L_INIT_NUM: box.prec->init_numeric(); m.phase = 2; m.nver = m.mver; break;
-        case L_UPDATE: m.mver = (m.mver + 1) % 3; box.update(m.mver); break;
+        case L_INIT_SYM: box.prec->init_symbolic(); m.phase = 1; m.app_sym = 0; m.app_num = 0; break;
+        case L_INIT_NUM: box.prec->init_numeric(); m.phase = 2; m.nver = m.mver; m.app_num = 0; break;
+        case L_UPDATE_DIAG: m.mver = m.mver ^ 2; box.update(m.mver); break;          // diagonal entries/blocks only
+        case L_UPDATE_ALL: m.mver = m.mver ^ 3; box.update(m.mver); break;           // diagonal and off-diagonal values
         case L_DONE_NUM: box.prec->done_numeric(); m.phase = 1; m.nver = -1; break;
         case L_DONE_SYM: box.prec->done_symbolic(); m.phase = 0; break;
         case L_APPLY:
           {
             Status st; bool unch;
             std::vector<double> out = box.apply(probe, NaN, st, unch);
+            m.app_sym = 1; m.app_num = 1;
             if(m.nver == m.mver)
             {
               if(last)
@@ -559,7 +566,7 @@ namespace c08
         }
         c.count("transitions");
       }
-      verif::Hash h1, h2; h1.pod(m.phase).pod(m.mver).pod(m.nver); h2.pod(m.nver).pod(m.mver).pod(m.phase).str("x");
+      verif::Hash h1, h2; h1.pod(m.phase).pod(m.mver).pod(m.nver).pod(m.app_sym).pod(m.app_num); h2.pod(m.app_num).pod(m.app_sym).pod(m.nver).pod(m.mver).pod(m.phase).str("x");
       // implementation state: matrix values + numeric data of the preconditioner
       { const double* v = Sys<bs>::rawval(box.mat); size_t cnt = size_t(box.mat.used_elements()) * size_t(bs * bs); h1.bytes(v, cnt * sizeof(double)); h2.bytes(v, cnt * sizeof(double)); }
       if(m.phase == 2) { box.hash_numeric(h1); box.hash_numeric(h2); }
@@ -600,7 +607,7 @@ namespace c08
   {
     typedef Sys<bs> S;
     const int nmax = c.thorough ? nmax_thorough : nmax_quick;
-    const int lc_depth = c.thorough ? 12 : 8;
+    const int lc_depth = c.thorough ? 14 : 12;
     for(int n = 1; n <= nmax; ++n)
     {
       const unsigned npat = 1u << unsigned(n * (n - 1));
@@ -651,8 +658,8 @@ namespace c08
     spec.property = "C08"; spec.harness = harness;
     spec.rule = std::string("case = (") + what + " size n, off-diagonal block pattern (all 2^(n(n-1))), diagonal variant, preconditioner kind+parameter, correction filter None/Unit(S)); "
       "per case: apply on every unit vector and one dense vector vs the long double textbook operator, NaN/1 pre-filled output, input unchanged, linearity, "
-      "ILU factors vs level-of-fill definition; then BFS over all legal life-cycle histories {init_symbolic, init_numeric, apply, in-place value update, done_numeric, done_symbolic} "
-      "replayed on fresh objects and deduplicated by (matrix values, preconditioner numeric arrays, phase). Non-trivial: matrix has an off-diagonal entry or the operator uses the diagonal";
+      "ILU factors vs level-of-fill definition; then BFS over all legal life-cycle histories {init_symbolic, init_numeric, apply, in-place update of the diagonal values, in-place update of all values, done_numeric, done_symbolic} "
+      "replayed on fresh objects and deduplicated by (matrix values, preconditioner numeric arrays, phase, version at the last init_numeric, 'apply since last init_symbolic', 'apply since last init_numeric'). Non-trivial: matrix has an off-diagonal entry or the operator uses the diagonal";
     spec.assumptions = {
       "oracle: own long double block-dense algebra (c08_common.hpp); ILU(p) reference = level-of-fill (Saad Alg. 10.5) + block IKJ with L_ik = A_ik U_kk^-1",
       "matrices have a full stored diagonal and sorted column indices (documented precondition of SOR/SSOR/ILU); cases whose reference ILU pivot is singular/tiny are excluded and counted",
